@@ -40,7 +40,7 @@ of a wrapper runs (Rust semantics).
 """
 from .facts import strip_generics, Operand, Place, norm_path
 from .roles import adt_of, classify_write
-from .mcommon import queue_calls, cmp_relation, is_dyn_call
+from .mcommon import queue_calls, cmp_relation, is_dyn_call, contradicted_arms
 from .analysis import sources
 
 ZERO = (0, 0, 0)
@@ -750,7 +750,8 @@ class Ledger(LedgerBase):
             if op_ == '+=' and amt == '1_usize':
                 return (0, 1, 0), 'size += 1'
             if op_ == '-=' and amt == '1_usize':
-                return (0, -1, 0), 'size -= 1'
+                # (retain: the size dimension is R09.1's - one decrement per removed object or `-= removed.len()` after the walk)
+                return ((0, -1, 0), 'size -= 1') if not bc.skip_e2 else (self.ZERO, '')
             if not bc.skip_e2:
                 self.problems.append((b, s.line, 'size is written with `%s %s`: not an accountable event' % (op_, amt)))
             return self.ZERO, ''
@@ -792,6 +793,9 @@ class Ledger(LedgerBase):
     def switch_event(self, b, an, bc, blk, t, lab, on, tr, fl=()):
         if on is not None and not on['pr'] and on['l'] in bc.upgrade_dest and lab == 'None':
             return None, 'pool gone', ('dead',)          # the pool is gone: there are no books to keep
+        tgt_ = dict(t.switch_arms()).get(lab)
+        if tgt_ is not None and (blk.idx, tgt_) in contradicted_arms(an, self.r, b):
+            return None, 'infeasible: contradicts the dominating size / max_size test', ('dead',)
         if b.path in self.helper_paths and not bc.skip_e1:
             rel = cmp_relation(an, self.r, blk, lab)
             if rel and rel[0] in ('size>max', 'size>=max') and 'surplus' not in fl:
